@@ -118,11 +118,14 @@ func (m *ManagerImpl) ReplaceFiles(files []File) error {
 	m.lastWrittenPaths = make([]string, 0, len(files))
 
 	for _, file := range files {
+		// Track the path before writing: a file that was created but whose chmod or write failed is
+		// still on disk (possibly partially written) and must be removed by the next replacement.
+		m.lastWrittenPaths = append(m.lastWrittenPaths, file.Path)
+
 		if err := WriteFile(m.osFileManager, file); err != nil {
 			return fmt.Errorf("failed to write file %q of type %v: %w", file.Path, file.Type, err)
 		}
 
-		m.lastWrittenPaths = append(m.lastWrittenPaths, file.Path)
 		m.logger.V(1).Info("Wrote file", "path", file.Path)
 	}
 
